@@ -51,7 +51,37 @@ class LinRegStub:
             Xc, Yc = X, Y
         W = linalg.pinv(Xc) @ Yc
         self.coef_ = W.T if y.ndim == 2 else W.reshape(-1)
+        self._W, self._shift = W, ((X.sum(axis=0) / X.shape[0], Y.sum(axis=0) / Y.shape[0]) if self.fit_intercept else None)
         return self
+
+    def predict(self, X):
+        if not hasattr(self, "_W"):
+            return X @ np.asarray(self.coef_).T + self.intercept_
+        if self._shift is None:
+            return X @ self._W
+        return (X - self._shift[0]) @ self._W + self._shift[1]
+
+
+class RidgeStub:
+    """user-supplied regularised linear estimator without intercept: W = (X^T X + alpha I)^-1 X^T Y (sklearn Ridge on floats)"""
+
+    def __init__(self, alpha=1):
+        self.alpha = alpha
+
+    def fit(self, X, y):
+        Y = y.reshape(X.shape[0], -1)
+        if not is_sym(X) and not is_sym(y):
+            from sklearn.linear_model import Ridge
+
+            r = Ridge(alpha=float(self.alpha), fit_intercept=False).fit(X, Y)
+            self._W = r.coef_.T
+        else:
+            self._W = linalg.inv(X.T @ X + arrays.eye(X.shape[1]) * self.alpha) @ X.T @ Y
+        self.coef_ = self._W.T
+        return self
+
+    def predict(self, X):
+        return X @ self._W
 
 
 class C18(runner.Check):
@@ -87,6 +117,8 @@ class C18(runner.Check):
         # history: a user-supplied linear estimator reused across two fits must be refitted on the new data
         add("refit-user-estimator", 2, 1, "R35", "I", True, cost=4)
         add("refit-user-estimator", 1, 2, "I", "R35", True, cost=4)
+        # a user-supplied regularised estimator only fixes the subspaces: the map must still be optimal for the training targets themselves
+        add("optimal", 2, 2, "I", "R35", True, cost=8, user="ridge")
         if tier == "thorough":
             for proj in (False, True):
                 add("structure", 3, 2, "H122", "R35", proj, cost=20)
@@ -172,7 +204,7 @@ class C18(runner.Check):
             fresh = OrthogonalRegression(use_orthogonal_projector=True, linear_estimator=LinRegStub()).fit(X, Y)
             P.require_all(sc.arr_eq(est.coef_, fresh.coef_), "refit-with-user-estimator==fresh-fit")
             return {"ok": True}
-        est = OrthogonalRegression(use_orthogonal_projector=proj).fit(X, Y)
+        est = OrthogonalRegression(use_orthogonal_projector=proj, linear_estimator=RidgeStub(1) if cfg.get("user") == "ridge" else None).fit(X, Y)
         A = np.asarray(est.coef_, dtype=object).T.view(SymArray)  # maps (padded) inputs to (padded) outputs: prediction = x @ A
         d = A.shape[0]
         if mode == "structure":
@@ -232,7 +264,7 @@ class C18(runner.Check):
             if not np.allclose(est.coef_, fresh.coef_, atol=1e-7):
                 viol.append(("refit-with-user-estimator==fresh-fit", {"refit": np.asarray(est.coef_).tolist(), "fresh": np.asarray(fresh.coef_).tolist()}))
             return {"ok": True}, viol
-        est = OrthogonalRegression(use_orthogonal_projector=proj).fit(X, Y)
+        est = OrthogonalRegression(use_orthogonal_projector=proj, linear_estimator=RidgeStub(1) if cfg.get("user") == "ridge" else None).fit(X, Y)
         A = np.asarray(est.coef_).T
         d = A.shape[0]
         tol = 1e-7
@@ -255,7 +287,8 @@ class C18(runner.Check):
             mine = np.linalg.norm(Yp - Xp @ A)
             from scipy.linalg import orthogonal_procrustes
 
-            best = np.linalg.norm(Yp - Xp @ orthogonal_procrustes(Xp, Yp)[0]) if not proj else None
+            full = proj and m == p and np.linalg.matrix_rank(A) == m  # projector mode with full-rank square coefficients: every orthogonal map is admissible
+            best = np.linalg.norm(Yp - Xp @ orthogonal_procrustes(Xp, Yp)[0]) if (not proj or full) else None
             rng = np.random.RandomState(0)
             for _ in range(30):
                 Qr, _ = np.linalg.qr(rng.randn(d, d))
